@@ -361,7 +361,7 @@ class OpsUnit:
         return res
 
     def witness(self, repo, o, res):
-        """concrete failing operands via kani concrete playback (best effort)"""
+        """the verifier's counterexample: kani concrete playback gives the operand bytes; they are decoded and replayed on the real CLI"""
         try:
             crate = Path(res.gen_path).parent.parent
             if not crate.exists():
@@ -370,10 +370,30 @@ class OpsUnit:
             p = subprocess.run(["cargo", "kani", "--harness", o.fn, "-Z", "concrete-playback", "--concrete-playback=print"], cwd=crate, capture_output=True, text=True, timeout=600, env=env)
             m = re.search(r"Concrete playback unit test for `[^`]*`:\n```\n(.*?)```", p.stdout, re.S)
             if m:
-                return {"found": True, "kani_concrete_playback_test": m.group(1), "note": "byte vectors are the values of kani::any() in order (operands a, b)"}
+                w = {"found": True, "kani_concrete_playback_test": m.group(1), "note": "byte vectors are the values of kani::any() in harness order"}
+                rp = getattr(self, "cli_replay", None)
+                if rp:
+                    try:
+                        from vlib import numreplay
+                        w["real_cli"] = rp(repo, o, numreplay.parse_playback(m.group(1)))
+                    except Exception as e:
+                        w["real_cli"] = {"replayed_on_real_cli": False, "why": f"replay aid failed: {e}"}
+                return w
         except Exception as e:
             return {"found": False, "error": str(e)}
         return None
+
+    def cli_replay(self, repo, o, vals):
+        from vlib import numreplay as N
+        parts = o.oid.split(".")
+        parts = parts[2:] if parts[0] == "C17" else parts[1:]          # C17.nopanic.<op>... / C05.<op>...
+        op = parts[0]
+        if op == "neg":
+            return N.replay_neg(repo, parts[1], N.decode(parts[1], vals[0]))
+        if op not in N.SYMS or len(vals) < 2:
+            return {"replayed_on_real_cli": False, "why": "no program template for this obligation"}
+        lk, rk = parts[1], parts[2]
+        return N.replay_binop(repo, op, lk, rk, N.decode(lk, vals[0]), N.decode(rk, vals[1]))
 
 
 import os, subprocess
